@@ -8,7 +8,7 @@ cp -r /repo/pamqp "$S/pamqp"
 sed -i "$1" "$S/pamqp/$2"
 if diff -q /repo/pamqp/$2 "$S/pamqp/$2" >/dev/null; then echo "mutation did not change $2"; rm -rf "$S"; exit 2; fi
 diff /repo/pamqp/$2 "$S/pamqp/$2" | head -6
-VERIF_REPO="$S" /verif/bin/check "$3" --tier "${4:-quick}" | tail -6
+VERIF_REPO="$S" VERIF_EVIDENCE_DIR=/tmp/mut-evidence /verif/bin/check "$3" --tier "${4:-quick}" | tail -6
 rc=$?
 rm -rf "$S"
 exit $rc
